@@ -120,6 +120,16 @@ def arith(it, opn, a, b, node):
                 return from_py(r)
         except Exception:  # noqa
             pass
+    if isinstance(a, Seq) and isinstance(b, Seq) and a.kind == "set" and b.kind == "set" and opn in ("sub", "and", "or") \
+            and all(is_pyconst(x) for x in a.items + b.items):
+        sa__, sb__ = [pyval(x) for x in a.items], [pyval(x) for x in b.items]
+        if opn == "sub":
+            res__ = [x for x in sa__ if x not in sb__]
+        elif opn == "and":
+            res__ = [x for x in sa__ if x in sb__]
+        else:
+            res__ = sa__ + [x for x in sb__ if x not in sa__]
+        return Seq([K(x) for x in res__], "set")
     if isinstance(a, Spectrum) or isinstance(b, Spectrum):
         if opn == "mul":
             return imgdom.multiply(it, a, b, node)
@@ -376,6 +386,9 @@ def getattr_(it, base, attr, node, fr):
     if isinstance(base, Arr):
         if attr == "shape":
             n = K(1) if base.single_row else Val(call("nrows", const(base.space.id if base.space else 0)))
+            if not base.single_row:
+                n.shape_of = base
+                n.axis = 0
             return Seq([n, K(len(base.cols))] if base.ndim == 2 else [K(len(base.cols))], "tuple")
         if attr == "T":
             return Unk(call("transposed", to_term(base)), space=base.space)
@@ -390,7 +403,11 @@ def getattr_(it, base, attr, node, fr):
         if attr in ("loc", "iloc", "at", "iat"):
             return Indexer(base, attr)
         if attr == "shape":
-            return Seq([Val(call("nrows", const(base.space.id if base.space else 0)))], "tuple")
+            n_ = Val(call("nrows", const(base.space.id if base.space else 0)))
+            n_.shape_of = base
+            n_.axis = 0
+            k_ = Val(call("ncols", base.term))
+            return Seq([n_, k_], "tuple")
         if attr in ("str", "dt"):
             return Method(base, attr)
         if attr == "index":
@@ -671,6 +688,11 @@ def val_getitem(it, v, idx, node):
             return r
         r = Val(v.term, space=Space("slice", parent=v.space, how="slice"), pos_of=v.pos_of)
         r.slice_of = (v, idx)
+        return r
+    if isinstance(idx, Seq) and idx.kind == "tuple" and len(idx.items) == 2 and isinstance(idx.items[0], SliceV) and idx.items[0].is_full() \
+            and (is_pyconst(idx.items[1]) or getattr(idx.items[1], "is_scalar_index", False)):
+        r = Val(call("column", v.term, to_term(idx.items[1])), space=v.space, pos_of=v.pos_of)  # column k of a per-row (N,k) result
+        r.column_of = v
         return r
     if getattr(idx, "scalar_pos", False) or getattr(idx, "is_scalar_index", False):
         r = Val(call("elem", v.term, to_term(idx)))
